@@ -28,7 +28,8 @@
 //	0 t w 1  Setup where, in addition, a peer whose connection has no outgoing side subscribed first
 //	9 m k    First: on k fresh entities AddFunctionType(heartbeat) and the first other access (m = 0 IsHeartbeatRunning,
 //	         1 HeartbeatManager(), 2 StartHeartbeat) released together; then run, stop, watch (obs 18 notrunning leaky)
-//	7 [1]    DataCopy(heartbeat); with 1 (and after every stop) more than one period of real time passes first
+//	7 [w]    DataCopy(heartbeat); with 1 (and after every stop) more than one period of real time passes first,
+//	         with w >= 100 that many ms pass (the streams stay held at Heartbeat.fired meanwhile)
 //
 // obs encoding: 0 ready, 1 busy, 2 blocked, 3 not runnable, 4 h parked at hook h, 5 done, 6 b
 // running, 7 StartHeartbeat error, 8 t waiter t acquired, 9 g stream g started, 10 c n fresh tmo
@@ -956,7 +957,12 @@ func (m *impl) Exec(op hx.Zs) []hx.Zs {
 		}
 		return m.firstUse(op[1], int(op[2]))
 	case 7:
-		if m.stopped || len(op) > 1 {
+		if len(op) > 1 && op[1] >= 100 {
+			// that many ms pass with every stream held at Heartbeat.fired: the next Tick releases a tick that fired
+			// long ago, its refresh must still carry the time of the refresh
+			m.stopped = false
+			time.Sleep(time.Duration(op[1]) * time.Millisecond)
+		} else if m.stopped || len(op) > 1 {
 			// a refresh of a stream that was not stopped properly would arrive within one period
 			m.stopped = false
 			// (the wait is a heuristic of the search, not part of the judgement: one ticker period, which the
@@ -1494,6 +1500,9 @@ func gen(r *hx.Rng, tier string, i int) []hx.Zs {
 		for n := r.Range(3, 9); n > 0; n-- {
 			switch r.Pick(30, 12, 12, 12, 6, 8, 8, 12) {
 			case 0:
+				if tier == "thorough" && r.Chance(1, 6) {
+					h = append(h, hx.Zs{7, int64(r.Range(1800, 2600))}) // a tick released long after it fired
+				}
 				tickSome(r.Range(1, 2))
 			case 1:
 				h = append(h, call(0, 0))
@@ -1629,6 +1638,11 @@ func fixed(tier string) [][]hx.Zs {
 		cat([]hx.Zs{{0, 400, 260}, {5}}, add, []hx.Zs{{4, 0, 3}}, seq(1, 1), []hx.Zs{{3, 0}, {7}}),
 	)
 	hs = append(hs,
+		// the stream is held for 2.5 s after its ticker fired (as if the refresh before had stalled on a blocked connection):
+		// the refresh then carries the current time, not the time the tick fired; so does the one of the tick pending behind it
+		cat([]hx.Zs{{0, 100}, {5}}, add, []hx.Zs{{3, 0}, {7, 2500}, {3, 0}, {3, 0}}, seq(1, 1), []hx.Zs{{3, 0}, {7}}),
+	)
+	hs = append(hs,
 		// a peer that cannot be notified (no outgoing side) subscribed before the observed one: every refresh still reaches the latter
 		cat([]hx.Zs{{0, 100, 0, 1}, {5}}, add, []hx.Zs{{3, 0}, {4, 0, 3}}, seq(1, 1), []hx.Zs{{3, 0}, {7}}),
 		cat([]hx.Zs{{0, 200, 0, 1}}, add, []hx.Zs{{3, 0}, {5}, {3, 0}, {8, 0, 2, 4}, {6}, {3, 2}}, seq(1, 4), []hx.Zs{{3, 2}, {7}}),
@@ -1690,7 +1704,7 @@ func main() {
 		NewImpl: newImpl,
 		Gen:     gen,
 		Fixed:   fixed,
-		Count:   map[string]int{"quick": 30, "thorough": 1100},
+		Count:   map[string]int{"quick": 28, "thorough": 1100},
 		Extra:   extra,
 	})
 }
